@@ -138,12 +138,43 @@ void PDU::serialize(uint8_t* buffer, uint32_t total_sz) {
     #ifdef TINS_DEBUG
     assert(total_sz >= sz);
     #endif
+    #ifdef LIBTINS_VERIF_HOOKS
+    Verif::SerializeMonitor* verif_monitor = Verif::serialize_monitor();
+    if (verif_monitor && total_sz < sz) {
+        verif_monitor->short_buffer(*this, total_sz, sz);
+    }
+    #endif // LIBTINS_VERIF_HOOKS
     prepare_for_serialize();
     if (inner_pdu_) {
         inner_pdu_->serialize(buffer + header_size(), total_sz - sz);
     }
+    #ifdef LIBTINS_VERIF_HOOKS
+    vector<uint8_t> verif_snapshot;
+    const uint32_t verif_offset = header_size();
+    if (verif_monitor && inner_pdu_ && total_sz >= sz) {
+        verif_snapshot.assign(buffer + verif_offset, buffer + verif_offset + (total_sz - sz));
+    }
+    #endif // LIBTINS_VERIF_HOOKS
     write_serialization(buffer, total_sz);
+    #ifdef LIBTINS_VERIF_HOOKS
+    for (size_t verif_i = 0; verif_i < verif_snapshot.size(); ++verif_i) {
+        if (buffer[verif_offset + verif_i] != verif_snapshot[verif_i]) {
+            verif_monitor->inner_modified(*this, static_cast<uint32_t>(verif_i),
+                                          verif_snapshot[verif_i], buffer[verif_offset + verif_i]);
+            break;
+        }
+    }
+    #endif // LIBTINS_VERIF_HOOKS
 }
+
+#ifdef LIBTINS_VERIF_HOOKS
+namespace Verif {
+SerializeMonitor*& serialize_monitor() {
+    static thread_local SerializeMonitor* monitor = 0;
+    return monitor;
+}
+} // Verif
+#endif // LIBTINS_VERIF_HOOKS
 
 void PDU::parent_pdu(PDU* parent) {
     parent_pdu_ = parent;
